@@ -112,12 +112,13 @@ PROPS["C11"] = dict(
 PROPS["C12"] = dict(
     facts=True,
     title="Malformed input yields an error, never a panic, exit or hang",
-    modules=["Kust.Props.C12", "Kust.Lemmas.Res"],
-    theorems=["Kust.C12.pathGet_no_panic", "Kust.C12.lookup_no_panic", "Kust.C12.fieldSetter_no_panic", "Kust.C12.fieldClearer_no_panic",
+    modules=["Kust.Props.C12", "Kust.Props.C12b", "Kust.Lemmas.Res"],
+    theorems=["Kust.C12.crd_expansion_terminates", "Kust.C12.expand_succ", "Kust.C12.Witness.old_expansion_unbounded", "Kust.C12.rem_cons_lt",
+              "Kust.C12.pathGet_no_panic", "Kust.C12.lookup_no_panic", "Kust.C12.fieldSetter_no_panic", "Kust.C12.fieldClearer_no_panic",
               "Kust.C12.elementIndexer_ne_panic", "Kust.C12.Witness.elementIndexerOld_panics", "Kust.Res.prevIds_no_panic",
               "Kust.Res.layers_no_panic", "Kust.Res.Witness.nameless_prevIds_panics", "Kust.C12.panic_sites_covered",
               "Kust.C12.panic_sites_all_reviewed"],
-    components=["fns.lookup", "fns.setelem", "res.layers"],
+    components=["fns.lookup", "fns.setelem", "res.layers", "crd.config"],
     oracle=True,
     n_corr={"quick": 2000, "thorough": 20000}, n_oracle={"quick": 1500, "thorough": 20000},
     technique="Lean 4 proof (explicit panic outcomes in the models; no_panic theorems; totality = termination) + correspondence incl. malformed stream + structural/byte mutation search in worker processes (recover, timeout, exit detection)",
